@@ -134,6 +134,29 @@ def render_page(prog, dynamic=False, ctx_report=None):
             cleanup()
 
 
+def render_page_after_other_context(prog):
+    """History variant: the SAME compiled Template object (and the same component classes, whose templates are compiled once) is first
+    rendered with a DIFFERENT context - every page string variable empty, every list empty, so conditions and loops around fills take
+    their other branch - and then with the program's own context; the second result must be what a single render gives."""
+    import djsetup
+    from django.template import Context, Template
+    with djsetup.components_settings(context_behavior=prog["mode"]):
+        classes, cleanup = build(prog, False)
+        try:
+            tpl = Template(G.d_tpls(prog["page"], False))
+            other = {k: ("" if isinstance(v, str) else []) for k, v in prog["ctx"]}
+
+            def first():
+                return tpl.render(Context(other))
+            outcome_of(first)       # whatever it gives (may legitimately raise, e.g. a required slot now unfilled)
+
+            def second():
+                return tpl.render(Context(dict(prog["ctx"])))
+            return outcome_of(second)
+        finally:
+            cleanup()
+
+
 def python_variant_applicable(prog):
     """Page = text* comp text* where the comp's kwargs are constants / page variables and its fills are static text."""
     comps = [t for t in prog["page"] if t[0] == "comp"]
